@@ -25,7 +25,7 @@ pub fn def16() -> PropDef {
     PropDef {
         info: PropInfo {
             id: "C16",
-            rule: "same instruction-stream generator as C15, half of the streams forced into the expressible/canonical class (assembler-expressible opcodes, unused fields zero, 32-bit immediates >= 0, any 64-bit value for lddw, byte-swap widths 16/32/64). The text is join(to_insn_vec().desc, newline) and, in a second stream, the captured stdout of disassemble(); long expressible programs of up to 2^17 (+4) slots (2^18 in the thorough tier) with wide loads at every kind of position go through both. Oracle: class 1 => assemble(text) == Ok(original bytes); other programs => if assemble() accepts the text the result equals the canonical form computed by the harness (same opcodes, same used-field values, unused fields cleared), an Err is fine. Non-trivial = class-1 program of >= 2 instructions, or a class-2 program the assembler accepted; distinct by hash.",
+            rule: "same instruction-stream generator as C15, half of the streams forced into the expressible/canonical class, the others with junk in unused fields (including register byte, offset and - in a third of them - a supported opcode byte in the second slot of a wide load) (assembler-expressible opcodes, unused fields zero, 32-bit immediates >= 0, any 64-bit value for lddw, byte-swap widths 16/32/64). The text is join(to_insn_vec().desc, newline) and, in a second stream, the captured stdout of disassemble(); long expressible programs of up to 2^17 (+4) slots (2^18 in the thorough tier) with wide loads at every kind of position go through both. Oracle: class 1 => assemble(text) == Ok(original bytes); other programs => if assemble() accepts the text the result equals the canonical form computed by the harness (same opcodes, same used-field values, unused fields cleared), an Err is fine. Non-trivial = class-1 program of >= 2 instructions, or a class-2 program the assembler accepted; distinct by hash.",
             assumptions: &["canonical form = harness/vrun/src/isa.rs::uses_of table"],
         },
         run: run16,
@@ -182,6 +182,13 @@ fn expressible(k: Kind) -> bool {
 }
 
 pub fn lower(s: &[SInsn], canon: bool) -> Vec<u8> {
+    lower_with(s, canon, false)
+}
+
+/// `junk_second_opcode`: in non-canonical streams the second slot of a wide load may also carry a
+/// (supported) opcode byte - like its register byte and offset, an unused field of the wide load.
+/// Only C16 looks at such streams: C15's domain is "wide loads followed by their second half".
+pub fn lower_with(s: &[SInsn], canon: bool, junk_second_opcode: bool) -> Vec<u8> {
     let mut ops = supported_opcodes();
     ops.push(TAIL_CALL);
     let mut out = Vec::new();
@@ -210,7 +217,8 @@ pub fn lower(s: &[SInsn], canon: bool) -> Vec<u8> {
         }
         out.extend_from_slice(&i.encode());
         if k == Kind::Lddw {
-            let second = if canon { Insn::new(0, 0, 0, 0, x.hi) } else { Insn::new(0, (x.hi & 15) as u8, ((x.hi >> 4) & 15) as u8, (x.hi >> 8) as i16, x.hi) };
+            let opc2 = if junk_second_opcode && !canon && (x.off as u16) % 3 == 0 { ops[(x.hi as u32 as usize >> 3) % ops.len()] } else { 0 };
+            let second = if canon { Insn::new(0, 0, 0, 0, x.hi) } else { Insn::new(opc2, (x.hi & 15) as u8, ((x.hi >> 4) & 15) as u8, (x.hi >> 8) as i16, x.hi) };
             out.extend_from_slice(&second.encode());
         }
     }
@@ -560,7 +568,7 @@ fn run16(ctx: &Ctx) {
     ctx.shrink_iters.set(30_000);
     let cases = ctx.share(ctx.tier.pick(400_000, 12_000_000));
     ctx.search("streams", "bytes", cases, stream(), |(s, canon), want_case| {
-        let bytes = lower(s, *canon);
+        let bytes = lower_with(s, *canon, true);
         let (v, class1, accepted) = check_roundtrip(&bytes);
         if !want_case {
             let mut st = ctx.stats();
@@ -580,7 +588,7 @@ fn run16(ctx: &Ctx) {
     // short class-2 programs are accepted far more often than long ones: dedicated stream
     let cases = ctx.share(ctx.tier.pick(200_000, 6_000_000));
     ctx.search("short", "bytes", cases, prop::collection::vec(sinsn(), 1..3), |s, want_case| {
-        let bytes = lower(s, false);
+        let bytes = lower_with(s, false, true);
         let (v, class1, accepted) = check_roundtrip(&bytes);
         if !want_case {
             let mut st = ctx.stats();
@@ -599,7 +607,7 @@ fn run16(ctx: &Ctx) {
     // the printed text (stdout of disassemble()) round-trips as well
     let cases = ctx.share(ctx.tier.pick(40_000, 1_200_000));
     ctx.search("printed", "bytes", cases, stream(), |(s, canon), want_case| {
-        let bytes = lower(s, *canon);
+        let bytes = lower_with(s, *canon, true);
         let (v, class1, accepted) = check_roundtrip_via(&bytes, true);
         if !want_case {
             let mut st = ctx.stats();
